@@ -49,10 +49,6 @@ def run(ck):
         by = {t[1]: t[2] for t in res.tuples("JD")}
         for b in by.values():
             judged[b] = judged.get(b, 0) + 1
-        evs_tp = vlib.read_ndjson(tp)
-        for ln, b in by.items():
-            if b in ("dec", "enc+dec") and '[["' in evs_tp[ln - 1].get("ds", ""):
-                dict_dec += 1
         for rj in rejected:
             e = rj["event"]
             note = (notes.get(rj["line"]) or [["no-action"]])[0][0]
@@ -61,9 +57,11 @@ def run(ck):
             ck.report("C03:%s:%s" % (e.get("type"), note), "round trip of a %s value rejected (%s): enc=%s dec=%s enc2=%s %s; value %s" % (
                 e.get("type"), note, e.get("enc"), e.get("dec"), e.get("enc2"), e.get("msg", "")[:120], e.get("vs", "")[:300]),
                 {"kind": "trace", "event": cellcommon.slim(e, 8000), "note": note})
-        for l in open(tp):
+        for ln, l in enumerate(open(tp), 1):
             e = json.loads(l)
             if e.get("k") == "RT":
+                if by.get(ln) in ("dec", "enc+dec") and '[["' in e.get("ds", ""):
+                    dict_dec += 1
                 types.add(e["type"])
                 withast += 1 if e["hasast"] and e["enc"] == "ok" else 0
                 refused += 1 if e["enc"] == "err" else 0
